@@ -169,8 +169,7 @@ def hasStarComp (name : Bytes) : Bool := (splitOn 46 name).contains starB
 
 /-- classification of a rule-selection divergence between model and spec (known-finding signatures) -/
 def classifyRule (cfg : Config Float) (name : Bytes) (ty : Nat) (spec : Option Nat) : String :=
-  if hasStarComp name then "literal_star_component"
-  else if cfg.orderingDisabled then
+  if cfg.orderingDisabled then
     let forced := pick false (dfs (rulesFor (toGRules cfg) ty) true [] [] (splitOn 46 name))
     let forcedIdx := forced.bind fun f => ((globRules cfg)[f.rule]?).map (·.1)
     if spec.isSome && (forcedIdx.isSome) && !(backtracking (toGRules cfg) true) then "backtracking_disabled_incomplete" else "none"
@@ -193,14 +192,14 @@ def nonAsciiAfterRef : Bytes → Bool
          | [] => false)))
     || nonAsciiAfterRef rest
 
-def classifyTmpl (tmpl name : Bytes) : String :=
+def classifyTmpl (tmpl _name : Bytes) : String :=
   let refs := findRefs tmpl.length tmpl
-  if tmpl.contains cPct then "template_has_percent"
-  else if hasStarComp name then "literal_star_component"
-  else if refs.any (fun r => r.2.contains cDollar) then "template_dollar_in_reference"   -- repaired (4d631d3): cannot fire with `isRefByte = isWordByte`
+  -- (`template_has_percent` and `template_ref_prefix_of_ref` are repaired by b74fba2 and no longer classes: a divergence
+  --  on such a template must have one of the causes below, or is a new defect)
+  -- (`literal_star_component` is repaired by 0275669 and no longer a class)
+  if refs.any (fun r => r.2.contains cDollar) then "template_dollar_in_reference"   -- repaired (4d631d3): cannot fire with `isRefByte = isWordByte`
   else if hasDollarDollar tmpl then "template_dollar_escape"
   else if nonAsciiAfterRef tmpl then "template_unicode_letter_after_ref"
-  else if refs.any (fun r => refs.any (fun q => r.1 != q.1 && r.1.isPrefixOf q.1)) then "template_ref_prefix_of_ref"
   else if refs.any (fun r => (r.1.contains cLBrace) != (r.1.contains cRBrace)) then "template_brace_mismatch"
   else if refs.any (fun r => r.2.head? == some 48 && r.2.length > 1 && (atoiDigits r.2).isSome) then "template_leading_zero_ref"
   else "none"
